@@ -124,7 +124,16 @@ func (db *SpecDB) byShortName(name string) *ContractFile {
 	return nil
 }
 
-func (db *SpecDB) fnSpec(fn *ssa.Function) (*FnSpec, *ContractFile) {
+// fnSpecFor is fnSpec for a call made from callerPkg: a caller in another package that declares (or shares) an `ext`
+// summary of the callee keeps using that trusted summary even when the callee's own package has a verified `fn` contract
+// (the two may speak about different ghosts); inside the callee's package the verified contract is used.
+func (db *SpecDB) fnSpecFor(fn *ssa.Function, callerPkg string) (*FnSpec, *ContractFile) {
+	return db.fnSpecOpt(fn, callerPkg)
+}
+
+func (db *SpecDB) fnSpec(fn *ssa.Function) (*FnSpec, *ContractFile) { return db.fnSpecOpt(fn, "") }
+
+func (db *SpecDB) fnSpecOpt(fn *ssa.Function, callerPkg string) (*FnSpec, *ContractFile) {
 	org := fn
 	if fn.Origin() != nil {
 		org = fn.Origin()
@@ -138,6 +147,16 @@ func (db *SpecDB) fnSpec(fn *ssa.Function) (*FnSpec, *ContractFile) {
 		}
 	}
 	key := funcKey(org)
+	if callerPkg != "" && callerPkg != pkgPath {
+		for _, k := range []string{pkgPath + "." + key, shortPkg(pkgPath) + "." + key} {
+			if _, bad := db.conflicts["ext "+k]; bad {
+				continue
+			}
+			if s, ok := db.ext[k]; ok {
+				return s, db.extCF[k]
+			}
+		}
+	}
 	if cf, ok := db.files[pkgPath]; ok {
 		if s, ok := cf.Fns[key]; ok {
 			return s, cf
